@@ -65,6 +65,10 @@ CHECKS.update({
     "C17": dict(technique=_SESS_TECH, text="OnePerMessage / CameraConcat model-checked; all 21 state types, all interleavings of two cameras' chunk streams, unsubscribe at every point of a stream, voice-assistant handler outcomes x audio x unsubscribe at every point run on the real client; callbacks carry model type, key, image parts and a value check against the sent message.", design="§3.6, §6 C17", note="Expected model class per state message is a literal table in the harness; value conversion itself is C14's subject. " + TB),
 })
 
+CHECKS.update({
+    "C18": dict(technique="TLA+ spec Reconnect.tla (manager state, retry timer, mDNS listener, the attempt in flight / cancelled-but-unwinding / waiting successor / waiting stop that the lock serialises) model-checked by TLC (OneAtATime, StoppedMeansQuiet, NoAttemptWhileUp, TimerSanctioned, BackoffByTries, CallbacksAlternate); the real ReconnectLogic on the real APIClient/APIConnection over the simulated network; the observable event stream and rest-point snapshots validated by TLC against TraceReconnect.tla", text="Design properties model-checked over all orders of user calls, outcomes, session ends, records and time in the bounds; on the real manager every attempt instant (virtual ms), callback, listener add/remove and stop return must be produced by a specification step and every rest-point snapshot (state, tries, retry deadline, listener) must equal the specification's, so a wrong back-off, a second attempt in flight or a listener left after stop is a rejected trace.", design="§3.7, §6 C18", note="User callbacks return without awaiting; start() is called on a stopped manager at rest. A cancelled attempt counts as a failed one (library behaviour); FIFO order of lock waiters is not tracked (either order accepted). " + TB),
+})
+
 NOT_YET = {}
 
 
